@@ -167,7 +167,9 @@ mod run {
     static PORT_COUNTER: AtomicU32 = AtomicU32::new(0);
     fn next_port() -> u16 {
         let n = PORT_COUNTER.fetch_add(1, Ordering::Relaxed);
-        (30_000 + (std::process::id() % 250) * 100 + n % 100) as u16
+        // below the ephemeral range (32768..): an outgoing connection of any process on the machine that happens to use
+        // the port as its local port makes bind() fail
+        (27_100 + (std::process::id() % 56) * 100 + n % 100) as u16
     }
     fn port_is_free(port: u16) -> bool {
         match StdStream::connect_timeout(&SocketAddr::new(IpAddr::V4(Ipv4Addr::LOCALHOST), port), Duration::from_secs(2)) {
@@ -405,8 +407,15 @@ mod run {
         };
         ctx.note("h.start", 0);
         instances.push(start_instance(&ctx, 0, p, &ports, &path));
-        let up0 = wait_until(&|| serving.load(Ordering::SeqCst) == 0, Duration::from_secs(20));
+        let up0 = instances[0].mgr.is_some() && wait_until(&|| serving.load(Ordering::SeqCst) == 0, Duration::from_secs(20));
         if !up0 || instances[0].mgr.is_none() {
+            if std::env::var_os("KVH_C11_DEBUG").is_some() {
+                let g = ctx.m.lock().unwrap();
+                eprintln!("c11: instance 0 not up: up0={up0} mgr={} holder={:?} stalled={}", instances[0].mgr.is_some(), g.holder, g.stalled);
+                for e in &g.log {
+                    eprintln!("  {} inst {} tid {} {} {}", e.t_us, e.inst, e.tid, e.point, e.val);
+                }
+            }
             ctx.set_free();
             kvarn::verif::set_hook(None);
             return X::L(vec![X::N(96), X::N(4)]);
@@ -482,6 +491,12 @@ mod run {
             let mut g = ctx.m.lock().unwrap();
             (std::mem::take(&mut g.log), g.stalled)
         };
+        // bind() of a successor failed (the port is taken by a foreign socket): not a run
+        let foreign = (0..instances.len() as u32).any(|i| {
+            let binds = log.iter().filter(|e| e.inst == i && e.point == "ex.bind").count();
+            let bounds = log.iter().filter(|e| e.inst == i && e.point == "ex.bound").count();
+            binds != bounds && !instances[i as usize].executed.load(Ordering::SeqCst)
+        });
         let executed_flags: Vec<X> = instances.iter().map(|i| X::bool(i.executed.load(Ordering::SeqCst))).collect();
         let waited_flags: Vec<X> = instances.iter().map(|i| X::bool(i.waited.load(Ordering::SeqCst))).collect();
         for inst in &instances {
@@ -506,6 +521,9 @@ mod run {
         let _ = std::fs::remove_file(&path);
         // after everything is down the ports refuse (sanity of the client's "refused" detection)
         let refuses_after = ports.iter().all(|p| port_is_free(*p));
+        if foreign {
+            return X::L(vec![X::N(96), X::N(5)]);
+        }
 
         let ev = log
             .iter()
